@@ -13,7 +13,7 @@ CHECKS = {
         technique="stateless exhaustive exploration of every random outcome of the real sampler (exact transition matrix) + global-balance invariant",
         text="Exact transition matrix of the real ParticleGibbsTreeSampler from every start tree (n<=3 quick, n<=4 thorough; every "
              "kernel, both wirings, outliers on/off, alphas, thresholds, N<=3/4) by enumerating every outcome of every random draw; "
-             "global balance against the recorded log_p_one decided at 1e-10. Exhaustive within the bounds, no sampling.",
+             "global balance against the recorded log_p_one decided at 1e-10; includes kernels re-used across an alpha change and the run loop's sampler set after burn-in passes. Exhaustive within the bounds, no sampling.",
         note="Trusted: numpy/scipy semantics of the overridden Generator methods; data values from a finite alphabet; pi is the repo's own log_p_one (C03 ties it to the model).",
         design="4/C01",
     ),
@@ -35,7 +35,7 @@ CHECKS = {
         text="For every kernel x outlier proposal x permutation distribution x parent tree over <=3 (4) data points: the oracle's complete list "
              "of placements is scored (sum of reported probabilities = 1, all positive) and ALL executions of sample() reproduce exp(log_p) "
              "exactly; for every data order ALL placement paths of SMCSampler and ConditionalSMCSampler (every compatible retained tree) are "
-             "enumerated and weight ratios must equal target/proposal ratios including generation 1; reachable final trees = compatible trees.",
+             "enumerated and weight ratios must equal target/proposal ratios including generation 1; reachable final trees = compatible trees. A second pass over every parent tree with deep two-sample data judges positivity and normalisation in log space.",
         note="Weights are judged up to the per-generation normalisation the swarm applies (ratios between particles of one swarm). Data from a generic alphabet.",
         design="4/C08",
     ),
@@ -44,29 +44,29 @@ CHECKS = {
         category="model_checking",
         technique="exhaustive enumeration of every shuffle outcome of RootPermutationDistribution.sample on every tree over n<=4 (5) data points vs brute-force filter of all n! orders",
         text="Exact distribution over data orders for all 427 trees over <=4 data points incl. every outlier subset (n=5 thorough), three "
-             "sibling/label variants: support = brute-force compatible orders, every order has probability 1/count to 1e-12, log_pdf = -log(count).",
+             "sibling/label variants: support = brute-force compatible orders, every order has probability 1/count to 1e-12, log_pdf = -log(count); large forests against an exact integer count; every state of the edit-history BFS (reads between edits): log_pdf = -log(exact count) and a drawn order is compatible.",
         note="Trusted: the brute-force linear-extension filter in mc/oracle.py.",
         design="4/C09",
     ),
     "C02": dict(engine="E4 input enumerator + E2 reference", category="model_checking",
         technique="bounded-exhaustive enumeration of all rooted labelled forests x data alphabet x grid sizes on the real Tree, against the literal sum and a sound interval recursion",
-        text="Every rooted labelled forest on <=4 (5) nodes x grid {2..5} x 1-2 samples x 6 data kinds, four build histories each, plus the direct->FFT switch at 999/1000/1001 grid points; "
+        text="Every rooted labelled forest on <=4 (5) nodes x grid {2..5} x 1-2 samples x 6 data kinds, six build histories each (incl. the original after its copy was edited and an older-trace dictionary), large forests, plus the direct->FFT switch at 999/1000/1001 grid points; "
              "per entry: finite, inside a sound enclosure [L,U] that models the documented floor and per-convolution error, and equal to the exact value at 1e-9 wherever the enclosure is tight.",
         note="Trusted: the O(G^2) log-domain recursion (validated in-run against the literal sum over all index assignments where G^K<=4000); error model constants (1e-12 relative, 1e-11 FFT absolute).", design="4/C02"),
     "C03": dict(engine="E2 state space + reference", category="model_checking",
         technique="exhaustive enumeration of all 427 trees over <=4 data points x construction histories x alpha x outlier priors, against closed-form FS-CRP densities; all-pairs identity check",
         text="log_p, log_p_one and the fused variant of every tree (every outlier subset) built post-order, reversed, from_dict, relabelled, in EVERY compatible SMC data order and via "
              "prune-regraft, vs the closed formulas with the literal-sum data term (1e-8 relative); large forests (8-12 clones); every tree over 3 clustered data points that the real loader produced "
-             "from input + cluster files in three layouts x 1-3 samples x outlier priors (model's outlier terms taken from the files); ==/hash over all pairs incl. trees over different data subsets.",
+             "from input + cluster files in three layouts x 1-3 samples x outlier priors (model's outlier terms taken from the files); a distribution object whose alpha is re-assigned between evaluations; trees sharing a grafted subtree object with a tree edited in place; ==/hash over all pairs incl. trees over different data subsets.",
         note="Trusted: mc/oracle.py ref_log_joint written from the statement (root-count penalty includes its geometric normaliser).", design="4/C03"),
     "C05": dict(engine="E4 input enumerator", category="model_checking",
         technique="bounded-exhaustive enumeration of the read-count x copy-number x purity x error-rate x density x precision x grid cross-product through real input files, against scipy pmfs",
-        text="Every case of the cross-product in DESIGN 4/C05 through load_data vs binom/betabinom mixtures (1e-8 relative); normalisation over every alternate count for 4 depths; every partition of 4 mutations into clusters.",
+        text="Every case of the cross-product in DESIGN 4/C05 through load_data vs binom/betabinom mixtures (1e-8 relative); normalisation over every alternate count for 4 depths; every partition of 4 mutations into clusters; clusters of 60-800 mutations; multi-sample inputs with scrambled rows.",
         note="Trusted: scipy.stats.binom / betabinom.", design="4/C05"),
     "C06": dict(engine="E3 edit-history BFS", category="model_checking",
         technique="explicit-state BFS over edit histories of the real Tree (canonical-state dedup, n=3 to the fixpoint) with a fresh-rebuild differential invariant in every state",
         text="Every state reachable by the samplers' edit grammar for n=3 (closed: ~12k states, 260k transitions) and to depth 5-6 for n=4: per-clone log_p/log_r, root vector, log_p, log_p_one, fused variant equal a fresh build to 1e-9(1+depth). Isolation part: every tree over <=3 (4) data points x every subtree (extracted or rebuilt from nothing) "
-             "grafted onto two copies of the pruned tree at every pair of parents, then every in-place edit of the first copy's grafted clones: the other live trees stay unchanged and equal to their fresh builds.",
+             "grafted onto two copies of the pruned tree at every pair of parents, then every in-place edit of the first copy's grafted clones: the other live trees stay unchanged and equal to their fresh builds; likewise several trees restored from one dictionary / particle. Every public read method is called between edits (derived values kept on the object are warm).",
         note="Canonical form covers every slot incl. sibling order and the graph library's vacated-position list; SMC placements only on SMC-built states (as the samplers compose them).", design="4/C06"),
     "C07": dict(engine="E3 edit-history BFS + E1 explorer", category="model_checking",
         technique="structural invariant evaluated in every state of the explicit-state edit BFS and on the result of every enumerated execution of every sampler move",
@@ -83,15 +83,15 @@ CHECKS = {
         note="MAP tree identified by decoding table + Newick.", design="4/C11"),
     "C12": dict(engine="E4 trace enumerator", category="model_checking",
         technique="exhaustive enumeration of every tree over <=3 data points (all outlier subsets) x clustered/unclustered x samples through all summary commands, outputs decoded and compared",
-        text="Every command output (table + Newick) decoded: each mutation once per sample, clone ids are Newick nodes or -1, cluster members share a clone, ccf/prevalence per clone feasible, optimal and in [0,1] or -1; commands complete incl. all-outlier trees and empty-clone consensus trees; one chain and 2-3 chains stored in completion orders that do not start with chain 0; 12-point trees with ids >= 10 and 3 samples.",
+        text="Every command output (table + Newick) decoded: each mutation once per sample, clone ids are Newick nodes or -1, cluster members share a clone, ccf/prevalence per clone feasible, optimal and in [0,1] or -1; commands complete incl. all-outlier trees, empty-clone consensus trees and even splits between every pair of distinct trees; a listed cluster without data point; end-to-end through the command line; one chain and 2-3 chains stored in completion orders that do not start with chain 0; 12-point trees with ids >= 10 and 3 samples.",
         note="Newick labels compared as strings.", design="4/C12"),
     "C13": dict(engine="E1 EnumRNG (recording) + E2", category="model_checking",
         technique="exhaustive enumeration of the (a,b,alpha,K,n) grid and of every auxiliary outcome with the law parameters of each draw recorded by the enumerating generator; all trees for the run-loop part",
-        text="Parameters of the Beta, Bernoulli and Gamma draws inside sample() equal Escobar-West for all 756 grid points x 98 auxiliary outcomes; update_concentration_value passes K, n (outliers excluded) and the new value is used by densities and proposals, for every tree over <=4 data points.",
+        text="Parameters of the Beta, Bernoulli and Gamma draws inside sample() equal Escobar-West for all 756 grid points x 98 auxiliary outcomes; update_concentration_value passes K, n (outliers excluded) and the new value (down to the 1e-10 floor) is used by densities and proposals, for every tree over <=4 data points; chained histories of 2-3 updates by one sampler object.",
         note="Continuous draws over a 7-quantile alphabet; invariance of the mixture is mathematics, side-checked by quadrature.", design="4/C13"),
     "C14": dict(engine="E1 EnumRNG explorer + shadow execution", category="model_checking",
         technique="enumeration of call histories (move / alpha-change / clear sequences) x random outcomes under EnumRNG with every memoised call shadowed by the wrapped original",
-        text="Every history up to length 2 (3) plus all X-change-X histories, with and without the run loop's clears: each of ~2M memoised calls equals recomputation at 1e-9 (arrays), proposal support/probabilities and cached new-clone trees.",
+        text="Every history up to length 2 (3) plus all X-change-X histories, with and without the run loop's clears: each of ~2M memoised calls equals recomputation at 1e-9 (arrays), proposal support/probabilities and cached new-clone trees; memo keys pairwise different over 320k (600k) enumerated arguments; 2600 (9000) distinct children lists in one process without clears (eviction), every call shadowed.",
         note="n=2 full enumeration, n=3 / length 3 deviation-bounded.", design="4/C14"),
     "C15": dict(engine="E3 edit-history BFS + E1 explorer", category="model_checking",
         technique="explicit-state BFS over edit histories with a serialisation bisimulation invariant; deviation-bounded exploration of the real chain driver under EnumRNG and a virtual clock",
@@ -99,11 +99,11 @@ CHECKS = {
         note="Trace part deviation-bounded (bound 0 x 4 policies, bound 1 subset).", design="4/C15"),
     "C16": dict(engine="E4 multiset enumerator + E2", category="model_checking",
         technique="exhaustive enumeration of multisets of trees x thresholds x weighting modes through the real consensus code, against support counting",
-        text="1.6M (quick) cases: all multisets of <=3 trees over the 42 trees on 3 data points, <=4 (5) over the 26 without outliers, <=2 over all 243 trees on 4 data points, 3-tree multisets on 4 data points (orbit representatives quick / all 2.4M thorough), weighted sets; result is a well-formed tree whose clades are exactly the majority clades, uncovered points are outliers.",
+        text="1.6M (quick) cases: all multisets of <=3 trees over the 42 trees on 3 data points, <=4 (5) over the 26 without outliers, <=2 over all 243 trees on 4 data points, 3-tree multisets on 4 data points (orbit representatives quick / all 2.4M thorough), weighted sets; result is a well-formed tree whose clades are exactly the majority clades, uncovered points are outliers; end-to-end through trace file and consensus command incl. traces whose scores are all lowered by 1200 / 40000.",
         note="Cases within 1e-9 of the threshold skipped; quick n=4 triples assume equivariance under renaming data indices.", design="4/C16"),
     "C17": dict(engine="E4 input enumerator", category="model_checking",
         technique="exhaustive enumeration of all 4^6 cell-state tables x column/separator/cluster variants x row orders through load_data, against a pure-Python filter and the C05 model",
-        text="Every table over 3 mutations x 2 samples with cells ok/missing/cn0/duplicated (minus the excluded families), all row permutations (<=5 rows) or 8 structured orders: same result for every order, kept set, numbering, sample order, defaults, values; major<minor rejected.",
+        text="Every table over 3 mutations x 2 samples with cells ok/missing/cn0/duplicated (minus the excluded families) plus tables with a cell holding a usable row and an extra zero-copy-number row, all row permutations (<=5 rows) or 8 structured orders: same result for every order, kept set, numbering, sample order, defaults, values; major<minor rejected.",
         note="Degenerate offsetting tables must be rejected or correctly filtered.", design="4/C17"),
     "C18": dict(engine="E5 TLC pool model + subprocess replay", category="model_checking",
         technique="TLC explicit-state exploration of a TLA+ model of the process pool; every terminal state (schedule class) replayed against the implementation in fresh processes; real spawn-pool runs under varied hash seed / affinity",
@@ -111,11 +111,11 @@ CHECKS = {
         note="Model bound to the code by replaying every class; classes cross-checked by an independent Python enumerator. Finite set of seeds/option sets.", design="4/C18"),
     "C19": dict(engine="E1 EnumRNG explorer (deviation-bounded)", category="model_checking",
         technique="deviation-bounded exploration of the real chain driver under EnumRNG + virtual clock over the full cross-product of CLI option values",
-        text="1356 option configurations (boundary values of every range): bound 0 under 4 default policies for all, bound 1 on a large subset (bound 2 for one data point, thorough): the run completes, every entry is a well-formed tree over all data with finite log_p_one.",
+        text="1356 option configurations (boundary values of every range): bound 0 under 4 default policies for all, bound 1 on a large subset (bound 2 for one data point, thorough): the run completes, every entry is a well-formed tree over all data with finite log_p_one; Grid D at 999/1000/1001 grid points; `phyclone run` through the real click command line in-process over every boundary value its option declarations accept.",
         note="Not exhaustive over random outcomes of a whole run; completed bounds and caps reported in evidence.", design="4/C19"),
     "C20": dict(engine="E5 in-memory device + fault injector", category="fault_enumeration",
         technique="crash-point enumeration: every byte prefix of the real writer's stream through the three readers; ENOSPC at every write-call boundary",
-        text="For five traces (1, 2, 6, 9 chains, clustered) every prefix 0..len-1, plus a systematic subset of the crash points of a 1101-entry chain (about 5200 crash points x 3 readers): reader raises or output is byte-identical to the complete file's; ENOSPC at each of the writer's write calls makes the run fail and leaves a proper prefix.",
+        text="For five traces (1, 2, 6, 9 chains, clustered) every prefix 0..len-1, plus a systematic subset of the crash points of a 1101-entry chain (about 5200 crash points x 3 readers): reader raises or output is byte-identical to the complete file's; identical output is accepted only when the prefix still holds the whole payload; ENOSPC at each of the writer's write calls makes the run fail and leaves a proper prefix; whole-run crash points of real 1-3 chain runs through a write-session device.",
         note="gzip mtime fixed to 0 for a reproducible stream.", design="4/C20"),
 }
 
@@ -156,7 +156,7 @@ def main():
         "engines": [
             {"name": "E1 EnumRNG explorer", "path": "mc/enumrng.py", "serves_properties": ["C01", "C04", "C08", "C09", "C13", "C14", "C15", "C19", "C07"], "kind_free_text": "hand-written stateless explorer: numpy Generator subclass whose every draw is an enumerated choice point with exact probability; DFS with prefix replay; full or deviation-bounded"},
             {"name": "E2 state space + reference model", "path": "mc/oracle.py", "serves_properties": ["C01", "C02", "C03", "C04", "C08", "C09", "C10", "C16"], "kind_free_text": "all abstract clone trees over n data points; closed-form FS-CRP reference; literal-sum grid marginal"},
-            {"name": "E3 edit-history BFS", "path": "mc/editbfs.py", "serves_properties": ["C06", "C07", "C15"], "kind_free_text": "explicit-state breadth-first search over the real Tree object with canonical-state de-duplication"},
+            {"name": "E3 edit-history BFS", "path": "mc/editbfs.py", "serves_properties": ["C06", "C07", "C15", "C09", "C03"], "kind_free_text": "explicit-state breadth-first search over the real Tree object with canonical-state de-duplication; every public read between edits; isolation scenarios with several live trees"},
             {"name": "E5 TLC pool model", "path": "mc/tla/ChainPool.tla", "serves_properties": ["C18"], "kind_free_text": "TLA+ model of the process pool, every path replayed against the implementation"},
         ],
         "checks": checks,
